@@ -1,5 +1,256 @@
-(* placeholder while the model is being validated *)
-From PV Require Import C16.Model.
-Theorem C16_placeholder : True.
-Proof. exact I. Qed.
-Print Assumptions C16_placeholder.
+(* C16 -- Symbol tables keep names unique and lookups scoped.  Property theorems only.
+   Model: C16/Model.v ([step] = one public SymbolTable operation on a state made of symbol objects,
+   a chain of nested scopes with their tables, and detached tables).  [reachable st] = st is the
+   state after some history of operations from n nested empty scopes.
+
+   Property, full strength (properties.jsonl C16):
+     (1) names unique case-insensitively within a table            -- PROVED   (C16_unique_names_inv)
+     (2) lookup returns the symbol of the innermost enclosing scope -- PROVED   (C16_lookup_innermost ...)
+     (3) a generated name clashes with nothing in table/ancestors/other -- PROVED (C16_fresh_name_fresh ...)
+     (4) merge adds every non-skipped symbol exactly once           -- REFUTED for imported symbols
+         (C16_merge_adds_once_refuted); PROVED for every symbol that is not imported/unresolved
+         (C16_merge_adds_once_partial); containers and imported/unresolved symbols may be
+         identified with a symbol already present -- that identification is where the code is wrong
+     (5) merge renames only where needed                            -- REFUTED (C16_merge_renames_refuted:
+         symbols_to_skip is ignored by the container pass)
+     (6) a rejected operation changes nothing                       -- PROVED for every operation but
+         merge (C16_rejected_unchanged_partial) and for merge rejected by check_for_clashes when no
+         unresolved symbol of the receiving table has an intrinsic's name
+         (C16_merge_rejected_unchanged_partial); REFUTED for merge in general
+         (C16_rejected_unchanged_refuted_specialise, C16_rejected_unchanged_refuted_partial_update). *)
+From Coq Require Import List Arith Bool String NArith.
+Import ListNotations.
+From PV Require Import C16.GenTables C16.Model C16.Names C16.Inv C16.MergeProofs C16.StateInv C16.Proofs C16.Witness.
+Open Scope string_scope.
+Open Scope list_scope.
+
+(* (1) for all histories, in every table of the state (attached to a scope or detached): keys are
+   unique, they are exactly the lower-cased names of the symbols they hold, no two symbols of a
+   table have names equal up to case, no symbol object is listed twice *)
+Theorem C16_unique_names_inv : forall n ops T,
+    let st := run (init_state n) ops in
+    In T (all_tables st) ->
+    NoDup (keys T) /\ NoDup (sids T) /\
+    (forall k s, In (k, s) (t_syms T) -> k = normalize (s_name (hget (st_heap st) s))) /\
+    (forall k1 s1 k2 s2, In (k1, s1) (t_syms T) -> In (k2, s2) (t_syms T) ->
+                         normalize (s_name (hget (st_heap st) s1)) = normalize (s_name (hget (st_heap st) s2)) ->
+                         s1 = s2).
+Proof. intros n ops T st. apply unique_names_inv_. apply reachable_run. Qed.
+Print Assumptions C16_unique_names_inv.
+
+(* tags are unique per table and never stale: a tagged symbol is in the table that holds the tag *)
+Theorem C16_tags_never_stale : forall n ops T,
+    In T (all_tables (run (init_state n) ops)) ->
+    NoDup (map fst (t_tags T)) /\ forall tg s, In (tg, s) (t_tags T) -> In s (sids T).
+Proof. intros n ops T. apply tags_inv_. apply reachable_run. Qed.
+Print Assumptions C16_tags_never_stale.
+
+(* no symbol object is held by two tables (the domain restriction under which (1) is stated:
+   the model only lets operations create their own symbol objects, and drops the other table of a
+   merge that got past check_for_clashes) *)
+Theorem C16_one_owner : forall n ops, NoDup (flat_map sids (all_tables (run (init_state n) ops))).
+Proof. intros n ops. apply ownership_inv_. apply reachable_run. Qed.
+Print Assumptions C16_one_owner.
+
+(* (2) lookup(name), computed as the code does through the merged dictionary of get_symbols(),
+   returns exactly the entry of the first table -- the table itself, then its enclosing tables
+   outwards -- that has the lower-cased name; KeyError iff no table of the chain has it *)
+Theorem C16_lookup_innermost : forall T anc name s,
+    lookup T anc name = Some s <->
+    exists pre T' post, T :: anc = pre ++ T' :: post /\
+                        (forall P, In P pre -> ~ In (normalize name) (keys P)) /\
+                        find_key (normalize name) (t_syms T') = Some s.
+Proof. exact lookup_innermost_. Qed.
+Print Assumptions C16_lookup_innermost.
+
+Theorem C16_lookup_keyerror : forall T anc name,
+    lookup T anc name = None <-> forall P, In P (T :: anc) -> ~ In (normalize name) (keys P).
+Proof. exact lookup_none_. Qed.
+Print Assumptions C16_lookup_keyerror.
+
+Theorem C16_lookup_tag_innermost : forall T anc tag s,
+    lookup_tag T anc tag = Some s <->
+    exists pre T' post, T :: anc = pre ++ T' :: post /\
+                        (forall P, In P pre -> ~ In tag (map fst (t_tags P))) /\
+                        find_key tag (t_tags T') = Some s.
+Proof. exact lookup_tag_innermost_. Qed.
+Print Assumptions C16_lookup_tag_innermost.
+
+(* after any history the symbol returned for `name` is named `name` up to case *)
+Theorem C16_lookup_sound : forall n ops t T name s,
+    let st := run (init_state n) ops in
+    get_table st t = Some T -> lookup T (ancestors st t) name = Some s ->
+    normalize (s_name (hget (st_heap st) s)) = normalize name.
+Proof. intros n ops t T name s st. apply lookup_sound_. apply reachable_run. Qed.
+Print Assumptions C16_lookup_sound.
+
+(* (3) next_available_name: the counter loop always ends within |existing names|+1 iterations
+   (pigeonhole: the candidates root, root_1, root_2, ... are pairwise distinct after lower-casing);
+   the result is not a key of the table, nor -- unless shadowing -- of an enclosing table, nor of
+   other_table; it is the first free candidate *)
+Theorem C16_fresh_name_fresh : forall T anc root shadowing other,
+    exists nm, next_available_name T anc root shadowing other = Some nm /\
+               ~ In (normalize nm) (keys T) /\
+               (shadowing = false -> forall A, In A anc -> ~ In (normalize nm) (keys A)) /\
+               (forall Ot, other = Some Ot -> ~ In (normalize nm) (keys Ot)) /\
+               exists k, nm = cand (if String.eqb root "" then default_root else root) (N.of_nat k) /\
+                         forall k', k' < k ->
+                                    In (normalize (cand (if String.eqb root "" then default_root else root) (N.of_nat k')))
+                                       (existing_names T anc shadowing other).
+Proof. exact fresh_name_fresh_. Qed.
+Print Assumptions C16_fresh_name_fresh.
+
+(* after any history: no symbol of the table, its enclosing tables (unless shadowing) or the other
+   table is named like the generated name up to case *)
+Theorem C16_fresh_name_no_clash : forall n ops t T root shadowing other nm,
+    let st := run (init_state n) ops in
+    get_table st t = Some T ->
+    (forall Ot, other = Some Ot -> exists ot, get_table st ot = Some Ot) ->
+    next_available_name T (ancestors st t) root shadowing other = Some nm ->
+    forall P k s,
+      (P = T \/ (shadowing = false /\ In P (ancestors st t)) \/ other = Some P) ->
+      In (k, s) (t_syms P) ->
+      normalize (s_name (hget (st_heap st) s)) <> normalize nm.
+Proof. intros n ops t T root shadowing other nm st. apply fresh_name_no_clash_. apply reachable_run. Qed.
+Print Assumptions C16_fresh_name_no_clash.
+
+(* (4) full statement, FALSE of the code:
+     forall completed merges, every symbol s of the other table with s not in symbols_to_skip is
+     in the receiving table exactly once afterwards (or an equivalent symbol of the same name is).
+   Proved part: nothing lost, nothing twice, nothing from elsewhere, and every non-skipped symbol
+   that is not a ContainerSymbol, not imported and not unresolved is there exactly once. *)
+Theorem C16_merge_adds_once_partial : forall h T anc Ot skip m,
+    TOK h T -> TOK h Ot -> (forall s, In s (sids T) -> ~ In s (sids Ot)) ->
+    merge h T anc Ot skip = (m, MDone, None) ->
+    NoDup (sids (m_self m)) /\ NoDup (keys (m_self m)) /\
+    (forall s, In s (sids T) -> In s (sids (m_self m))) /\
+    (forall s, In s (sids (m_self m)) -> In s (sids T) \/ In s (sids Ot)) /\
+    (forall s, In s (sids Ot) -> ~ In s skip -> is_container (hget h s) = false ->
+               is_import (hget h s) = false -> is_unres (hget h s) = false ->
+               In s (sids (m_self m)) /\ count_occ Nat.eq_dec (sids (m_self m)) s = 1).
+Proof. exact merge_adds_once_partial_. Qed.
+Print Assumptions C16_merge_adds_once_partial.
+
+(* the hypotheses hold in every reachable state for the two tables of a merge *)
+Theorem C16_merge_hypotheses_reachable : forall n ops t j T Ot,
+    let st := run (init_state n) ops in
+    get_table st t = Some T -> nth_error (st_det st) j = Some Ot ->
+    (match t with TDet j' => Nat.eqb j' j | _ => false end) = false ->
+    TOK (st_heap st) T /\ TOK (st_heap st) Ot /\ (forall s, In s (sids T) -> ~ In s (sids Ot)).
+Proof. intros n ops t j T Ot st. apply reachable_merge_pre. apply reachable_run. Qed.
+Print Assumptions C16_merge_hypotheses_reachable.
+
+Theorem C16_merge_adds_once_refuted :
+  exists st t j skip T Ot st' T' s,
+    reachable st /\ get_table st t = Some T /\ nth_error (st_det st) j = Some Ot /\
+    step st (OMerge t j skip) = (st', RUnit) /\ get_table st' t = Some T' /\
+    In s (sids Ot) /\ ~ In s skip /\ is_container (hget (st_heap st) s) = false /\
+    ~ In s (sids T') /\
+    forallb (fun s' => negb (is_import (hget (st_heap st') s')) && negb (is_unres (hget (st_heap st') s')))
+            (sids T') = true.
+Proof. exact merge_adds_once_refuted_. Qed.
+Print Assumptions C16_merge_adds_once_refuted.
+
+(* whatever the outcome of a merge (completed, rejected, or an exception half-way), the receiving
+   table is consistent over the heap that is left: unique keys = lower-cased names *)
+Theorem C16_merge_keeps_table_consistent : forall h T anc Ot skip m ph oe,
+    TOK h T -> TOK h Ot -> (forall s, In s (sids T) -> ~ In s (sids Ot)) ->
+    merge h T anc Ot skip = (m, ph, oe) -> TOK (m_heap m) (m_self m).
+Proof. exact merge_keeps_table_ok_. Qed.
+Print Assumptions C16_merge_keeps_table_consistent.
+
+(* (5) full statement, FALSE of the code:
+     a completed merge changes the name of a symbol only if a non-skipped symbol of the other table
+     had the same name up to case. *)
+Theorem C16_merge_renames_refuted :
+  exists st t j skip T Ot st' s,
+    reachable st /\ get_table st t = Some T /\ nth_error (st_det st) j = Some Ot /\
+    step st (OMerge t j skip) = (st', RUnit) /\
+    In s (sids T) /\ s_name (hget (st_heap st') s) <> s_name (hget (st_heap st) s) /\
+    forallb (fun e => negb (String.eqb (fst e) (normalize (s_name (hget (st_heap st) s))))
+                      || mem_sid (snd e) skip) (t_syms Ot) = true.
+Proof. exact merge_renames_refuted_. Qed.
+Print Assumptions C16_merge_renames_refuted.
+
+(* (6) full statement, FALSE of the code:  forall st o st' e, step st o = (st', RErr e) -> st' = st.
+   Proved for every operation except merge: *)
+Theorem C16_rejected_unchanged_partial : forall st o st' e,
+    is_merge o = false -> step st o = (st', RErr e) -> st' = st.
+Proof. exact rejected_unchanged_nonmerge_. Qed.
+Print Assumptions C16_rejected_unchanged_partial.
+
+(* merge rejected by check_for_clashes never touches a table; it leaves the symbol objects
+   untouched too if no unresolved symbol of the receiving table is named like an intrinsic *)
+Theorem C16_merge_rejected_unchanged_partial : forall st t j skip T Ot m oe st' r,
+    get_table st t = Some T -> nth_error (st_det st) j = Some Ot ->
+    merge (st_heap st) T (ancestors st t) Ot skip = (m, MRejected, oe) ->
+    (m_self m = T /\ m_other m = Ot) /\
+    (no_intrinsic_unresolved (st_heap st) T ->
+     step st (OMerge t j skip) = (st', r) -> st' = st).
+Proof.
+  intros st t j skip T Ot m oe st' r HT HO Hm. split.
+  - destruct (merge_rejected_unchanged_partial_ _ _ _ _ _ _ _ Hm) as [A [B _]]. split; assumption.
+  - intros Hs H. eapply merge_step_rejected_unchanged_partial_; eauto.
+Qed.
+Print Assumptions C16_merge_rejected_unchanged_partial.
+
+Theorem C16_rejected_unchanged_refuted_specialise :
+  exists st o st' e, reachable st /\ step st o = (st', RErr e) /\
+                     map s_kind (st_heap st') <> map s_kind (st_heap st) /\
+                     st_slots st' = st_slots st /\ st_det st' = st_det st.
+Proof. exact rejected_unchanged_refuted_a. Qed.
+Print Assumptions C16_rejected_unchanged_refuted_specialise.
+
+Theorem C16_rejected_unchanged_refuted_partial_update :
+  exists st o st' e, reachable st /\ step st o = (st', RErr e) /\
+                     get_table st' (TSlot 0) <> get_table st (TSlot 0).
+Proof. exact rejected_unchanged_refuted_b. Qed.
+Print Assumptions C16_rejected_unchanged_refuted_partial_update.
+
+(* non-vacuity of the hypotheses used above *)
+Example C16_merge_adds_once_nonvacuous :
+  exists st T Ot m,
+    reachable st /\ get_table st (TSlot 0) = Some T /\ nth_error (st_det st) 0 = Some Ot /\
+    TOK (st_heap st) T /\ TOK (st_heap st) Ot /\ (forall s, In s (sids T) -> ~ In s (sids Ot)) /\
+    merge (st_heap st) T (ancestors st (TSlot 0)) Ot [] = (m, MDone, None) /\
+    map (fun s => s_name (hget (m_heap m) s)) (sids (m_self m)) = ["a"; "A_2"; "B_1"; "B"; "c"].
+Proof. exact merge_adds_once_nonvacuous. Qed.
+Print Assumptions C16_merge_adds_once_nonvacuous.
+
+Example C16_merge_rejected_nonvacuous :
+  exists st T Ot m,
+    reachable st /\ get_table st (TSlot 0) = Some T /\ nth_error (st_det st) 0 = Some Ot /\
+    merge (st_heap st) T (ancestors st (TSlot 0)) Ot [] = (m, MRejected, Some ESymbol) /\
+    no_intrinsic_unresolved (st_heap st) T /\
+    step st (OMerge (TSlot 0) 0 []) = (st, RErr ESymbol).
+Proof. exact merge_rejected_nonvacuous. Qed.
+Print Assumptions C16_merge_rejected_nonvacuous.
+
+Example C16_rejected_nonmerge_nonvacuous :
+  let st := run (init_state 2) [OAdd (TSlot 1) "a" sp_data "t"; OAdd (TSlot 0) "B" sp_arg ""] in
+  step st (OAdd (TSlot 1) "A" sp_data "") = (st, RErr EKey) /\
+  step st (OAdd (TSlot 0) "c" sp_data "t") = (st, RErr EKey) /\
+  step st (ORename (TSlot 0) 1 "b2") = (st, RErr ESymbol) /\
+  step st (ORemove (TSlot 1) 0) = (st, RErr ENotImpl) /\
+  step st (ONewSymbol (TSlot 0) "a" "" false sp_data false) = (st, RErr ESymbol).
+Proof. exact rejected_nonmerge_nonvacuous. Qed.
+Print Assumptions C16_rejected_nonmerge_nonvacuous.
+
+Example C16_fresh_name_nonvacuous :
+  let st := run (init_state 2)
+                [OAdd (TSlot 1) "a" sp_data ""; OAdd (TSlot 0) "A_1" sp_data ""; ONewTable;
+                 OAdd (TDet 0) "a_2" sp_data ""] in
+  snd (step st (ONextName (TSlot 0) "A" false (Some (TDet 0)))) = RName "A_3" /\
+  snd (step st (ONextName (TSlot 0) "A" false None)) = RName "A_2" /\
+  snd (step st (ONextName (TSlot 0) "A" true None)) = RName "A" /\
+  snd (step st (ONextName (TSlot 1) "" false None)) = RName "psyir_tmp".
+Proof. exact fresh_name_nonvacuous. Qed.
+Print Assumptions C16_fresh_name_nonvacuous.
+
+Example C16_lookup_nonvacuous :
+  let st := run (init_state 3) [OAdd (TSlot 2) "a" sp_data ""; OAdd (TSlot 0) "A" (mkSpec KGeneric false IAuto) ""] in
+  snd (step st (OLookup (TSlot 0) "a")) = RSym 1 /\ snd (step st (OLookup (TSlot 1) "A")) = RSym 0 /\
+  snd (step (fst (step st (ODetach 1))) (OLookup (TSlot 0) "a")) = RSym 1 /\
+  snd (step (fst (step (fst (step st (ORemove (TSlot 0) 1))) (ODetach 1))) (OLookup (TSlot 0) "a")) = RErr EKey.
+Proof. exact lookup_nonvacuous. Qed.
+Print Assumptions C16_lookup_nonvacuous.
